@@ -362,7 +362,7 @@ def teardown_reaches_all(ctx, rule):
             continue
         atoms = [a for _, a in path_atoms(f, path, decs)]
         # the `?` on the application's at_sim_end is a legitimate early exit
-        app_err = any(a[0] == 'is' and a[2] == 'Break' for a in atoms)
+        app_err = any(a[0] == 'is' and a[2] in ('Break', 'Err') for a in atoms)
         if app_err or any(h in path for h in hdrs):
             continue
         # an exit before the loop: feasible?  `x.is_empty() == false` right after x was swapped with a fresh RuntimeError::empty() is dead code
